@@ -51,6 +51,18 @@ type callRes struct {
 	Panic string
 	Tree  *cdesc.Tree
 	Out   string
+	Root  j5schema.RootSchema // the object Schema returned (identity is compared within a case)
+}
+
+// class of a completed call: 0 returned normally, 1 returned an error (or a nil schema), 2 panicked
+func (r callRes) class() int {
+	switch {
+	case r.Panic != "":
+		return 2
+	case r.Err != "" || r.Nil:
+		return 1
+	}
+	return 0
 }
 
 func (r callRes) failed() bool { return r.Err != "" || r.Panic != "" || r.Nil }
@@ -69,12 +81,14 @@ func (r callRes) String() string {
 	return "ok " + r.Out
 }
 
+// sameRes: what the caller observes is the same — the class, the error text / panic value,
+// the schema's unfolding, the encode output bytes, the decoded message
 func sameRes(a, b callRes) bool {
 	if a.failed() != b.failed() {
 		return false
 	}
 	if a.failed() {
-		return (a.Panic != "") == (b.Panic != "") && a.Nil == b.Nil
+		return a.Panic == b.Panic && a.Nil == b.Nil && a.Err == b.Err
 	}
 	if (a.Tree == nil) != (b.Tree == nil) {
 		return false
@@ -131,7 +145,7 @@ func (e *caseEnv) doCall(sh *sharedObj, c call) (res callRes) {
 			// the typed nil pointer of a failed build, handed out without an error: not a usable schema
 			return callRes{Nil: true}
 		}
-		return callRes{Tree: e.b.UnfoldRoot(e.k, root)}
+		return callRes{Tree: e.b.UnfoldRoot(e.k, root), Root: root}
 	case kEncode:
 		out, err := sh.codec.ProtoToJSON(e.b.Populate(c.Node, 2))
 		if err != nil {
@@ -384,7 +398,7 @@ func runC10(cfg *vh.Config) error {
 		return replayOne(cfg.Replay)
 	}
 	res := vh.NewResult("C10", cfg.Seed)
-	res.Rule = "forced schedules on the real SchemaCache / Codec / package-level Global codec through the verifhook points: type universes (a quarter of them with one or two types that have a field of an unsupported type and so fail to reflect, as do the types that reach them; chain, shared sub-schema, mutual+self recursion, disjoint, random graphs of 2-7 messages/enums in 1-3 packages, list and map fields; in codec/global mode a third of the universes also have exposed oneofs and oneof wrapper messages — those cases go to the direct oracle only), 2-6 threads of 0-3 calls (Schema / encode / decode / query-decode), schedules uniform / bursts / stall-after-k / all-enter, each drained round-robin; plus the model's two refutation witnesses in every mode; plus real goroutines under the race detector (first use on fresh codecs). non-trivial = distinct (universe, calls, schedule) with at least two threads that make a call"
+	res.Rule = "forced schedules on the real SchemaCache / Codec / package-level Global codec through the verifhook points: type universes (a quarter of them with one or two types that have a field of an unsupported type and so fail to reflect, as do the types that reach them; chain, shared sub-schema, mutual+self recursion, disjoint, random graphs of 2-7 messages/enums in 1-3 packages, list and map fields; a fifth of the universes also have exposed oneofs and more oneof wrapper messages), 2-6 threads of 0-3 calls (Schema / encode / decode / query-decode), schedules uniform / bursts / stall-after-k / all-enter, each drained round-robin; plus the model's two refutation witnesses in every mode; plus real goroutines under the race detector (first use on fresh codecs). non-trivial = distinct (universe, calls, schedule) with at least two threads that make a call"
 	cf := &vh.CasesFile{
 		Header: "From Coq Require Import String List NArith.\nFrom J5V.model Require Import Conc ConcCorr.",
 		Type:   "c10case",
@@ -411,8 +425,9 @@ func runC10(cfg *vh.Config) error {
 			// and must leave nothing behind for the others
 			cdesc.WithBad(r, u)
 			why += "+unsupported"
-		} else if mode != "cache" && r.Chance(35) {
-			// exposed oneofs / oneof wrapper messages: outside the Coq model, direct oracle only
+		} else if r.Chance(30) {
+			// exposed oneofs (registered up front and linked at once, their members processed in
+			// the message's field loop) and more oneof wrapper messages
 			u, why = cdesc.GenRich(r, fmt.Sprintf("%sc%d", tagBase, i))
 		}
 		if len(cdesc.MsgNodes(u)) == 0 {
@@ -458,6 +473,17 @@ func runC10(cfg *vh.Config) error {
 				Input: input, Got: fmt.Sprintf("trace %v", run.Trace)})
 		}
 		var obs []string
+		// identity of the schemas handed out: index of first appearance over (thread, call)
+		ptrID := map[j5schema.RootSchema]int{}
+		for t := range cs.Calls {
+			for _, got := range run.Res[t] {
+				if got.Root != nil {
+					if _, ok := ptrID[got.Root]; !ok {
+						ptrID[got.Root] = len(ptrID) + 1
+					}
+				}
+			}
+		}
 		for t, th := range cs.Calls {
 			var os []string
 			for k, c := range th {
@@ -474,34 +500,39 @@ func runC10(cfg *vh.Config) error {
 						sig = "C10 forced schedule: Schema fails (unlinked placeholder of a build in progress is visible) for a type that reflects alone"
 					case c.Kind == kSchema && got.Tree != nil && !got.Tree.Linked():
 						sig = "C10 forced schedule: Schema returns a schema with an unlinked nested reference (To == nil)"
-					case got.Panic != "":
-						sig = "C10 forced schedule: " + kindName[c.Kind] + " panics, succeeds alone"
+					case got.Panic != "" && want.Panic == "":
+						sig = "C10 forced schedule: " + kindName[c.Kind] + " panics, unlike the call run alone"
 					case got.Err != "" && !want.failed():
 						sig = "C10 forced schedule: " + kindName[c.Kind] + " fails, succeeds alone"
+					case got.failed() && want.failed():
+						sig = "C10 forced schedule: " + kindName[c.Kind] + " fails with a different error than the call run alone"
+					case !got.failed() && !want.failed() && got.Tree == nil:
+						sig = "C10 forced schedule: " + kindName[c.Kind] + " output differs from the output of the call run alone"
 					}
 					res.Fail(vh.Failure{Case: caseNo, Stream: "forced", Sig: sig, Clause: "each call returns the same result it returns when run alone",
 						Input: input, Got: fmt.Sprintf("thread %d call %d (%s of type %d): %s", t, k, kindName[c.Kind], c.Node, got), Want: want.String()})
 				}
+				res.Count("call:" + kindName[c.Kind])
 				if c.Kind == kSchema {
 					if got.Nil {
-						os = append(os, "ORes RNil")
+						os = append(os, "ORes RNil 0")
+					} else if strings.HasPrefix(got.Err, "unlinked ref") {
+						os = append(os, "ORes RUnlinked 0")
 					} else if got.failed() {
-						os = append(os, "ORes RErr")
+						os = append(os, "ORes RErr 0")
 					} else {
-						os = append(os, "ORes (ROk ("+got.Tree.Coq()+"))")
+						os = append(os, fmt.Sprintf("ORes (ROk (%s)) %d", got.Tree.Coq(), ptrID[got.Root]))
 					}
 				} else {
-					os = append(os, "OSame "+vh.BoolTerm(same))
+					os = append(os, fmt.Sprintf("OCall %d %d %s", got.class(), want.class(), vh.BoolTerm(same)))
 				}
 			}
 			obs = append(obs, "["+strings.Join(os, ";")+"]")
 		}
 		if cs.U.Rich() {
-			res.Count("oracle only (exposed oneofs / wrapper messages: outside the model)")
-			caseNo++
-			continue
+			res.Count("universe with exposed oneofs")
 		}
-		cf.Terms = append(cf.Terms, fmt.Sprintf("C10Case %d %s %s %s %s [%s]", cs.K, cs.U.CoqGraph(), callsTerm(cs.Calls), intsN(run.Sched), intsN(run.Trace), strings.Join(obs, ";")))
+		cf.Terms = append(cf.Terms, fmt.Sprintf("C10Case %d %s %s %s %s %s [%s]", cs.K, cs.U.CoqGraph(), cs.U.CoqExpo(), callsTerm(cs.Calls), intsN(run.Sched), intsN(run.Trace), strings.Join(obs, ";")))
 		var resStr [][]string
 		for _, th := range run.Res {
 			var ss []string
